@@ -93,6 +93,16 @@ func GenWF(o WFOpts) *rapid.Generator[*Spec] {
 		if o.Names > 0 && b.pct(o.Names, "names") {
 			ApplyNames(t, b.s)
 		}
+		// a package-level name that coincides with the field name every
+		// struct literal of a value expression uses as a key
+		for pi := 1; pi < len(b.s.Pkgs); pi++ {
+			if b.pct(30, "pkgleveltok") {
+				if b.s.PkgExtra == nil {
+					b.s.PkgExtra = map[int]string{}
+				}
+				b.s.PkgExtra[pi] += b.pick([]string{"const Tok = 7\n", "var Tok = 8\n", "func Tok() int { return 9 }\n"}, "tokdecl")
+			}
+		}
 		// named results in some injector templates, with the names Wire itself
 		// likes to use for its locals
 		for k := range b.s.Injectors {
